@@ -585,6 +585,10 @@ func (r *Reader) RefsFor(oid []byte) (*Iterator, error) {
 		return r.refsForIndexed(oid)
 	}
 
+	if !r.offsets[blockTypeRef].Present {
+		return &Iterator{&emptyIterator{}}, nil
+	}
+
 	it, err := r.start(blockTypeRef, false)
 	if err != nil {
 		return nil, err
